@@ -94,6 +94,19 @@ theorem c20_runner_launch_exact (dflt : Env) (cfg : J) (names : List String) (sp
     simp only [List.filterMap_cons, hx, List.map_cons]
     rw [ih (fun n hn => h n (by simp [hn])) (fun n hn => h1 n (by simp [hn]))]
 
+/-- One launch per requested name, each with ITS OWN configured data: the runner never merges two
+requested servers, however much of their launch data (command, args, environment) they share —
+the `i`-th launch is the configuration of the `i`-th name. -/
+theorem c20_runner_one_launch_per_name (dflt : Env) (cfg : J) (names : List String) (spec : String → Spec)
+    (h : ∀ n ∈ names, ValidFor cfg n (spec n)) :
+    (entry .runner dflt (.json cfg) names).launches.length = names.length
+    ∧ ∀ i (hi : i < names.length),
+        (entry .runner dflt (.json cfg) names).launches[i]? = some (configured dflt (spec names[i])) := by
+  rw [c20_runner_launch_exact dflt cfg names spec h]
+  refine ⟨by simp, ?_⟩
+  intro i hi
+  simp [List.getElem?_map, List.getElem?_eq_getElem hi]
+
 /-- the document does not mention server `n`: no `mcpServers` member, or no member `n` in it -/
 def Unknown (top : List (String × J)) (n : String) : Prop :=
   jget top "mcpServers" = none ∨ ∃ servers, jget top "mcpServers" = some (.obj servers) ∧ jget servers n = none
@@ -158,6 +171,32 @@ example : entry .runner [("PATH", "/bin")] (.json sampleCfg) ["web", "db"]
       · simpa using sample_valid_web
       · simpa using sample_valid_db)
   simpa [configured, envOrDefault] using this
+
+/-- two tenants of one launcher (same command, same args, different environment) and an identical
+twin: three requested names, three launches, each with its own environment -/
+def tenant (tok : String) : J :=
+  .obj [("command", .str "launcher"), ("args", argsJ ["--serve"]), ("env", envJ [("TOKEN", tok)])]
+def tenants : List (String × J) := [("a", tenant "1"), ("b", tenant "2"), ("c", tenant "1")]
+def tenantsCfg : J := .obj [("mcpServers", .obj tenants)]
+
+theorem tenant_valid (n tok : String) (hn : jget tenants n = some (tenant tok)) :
+    ValidFor tenantsCfg n ⟨"launcher", ["--serve"], some [("TOKEN", tok)]⟩ :=
+  ⟨[("mcpServers", .obj tenants)], tenants, _, rfl, by simp [jget], hn, by simp [jget], (by simp : "launcher" ≠ ""),
+    Or.inr (by simp [jget]), Or.inr ⟨[("TOKEN", tok)], by simp [jget], rfl⟩⟩
+
+example : (entry .runner [] (.json tenantsCfg) ["a", "b", "c"]).launches
+    = [⟨["launcher", "--serve"], [("TOKEN", "1")], true⟩, ⟨["launcher", "--serve"], [("TOKEN", "2")], true⟩,
+       ⟨["launcher", "--serve"], [("TOKEN", "1")], true⟩] := by
+  have := c20_runner_launch_exact [] tenantsCfg ["a", "b", "c"]
+    (fun n => ⟨"launcher", ["--serve"], some [("TOKEN", if n = "b" then "2" else "1")]⟩)
+    (by
+      intro n hn
+      simp at hn
+      rcases hn with rfl | rfl | rfl
+      · exact tenant_valid "a" "1" (by simp [jget, tenants])
+      · exact tenant_valid "b" "2" (by simp [jget, tenants])
+      · exact tenant_valid "c" "1" (by simp [jget, tenants]))
+  simpa [configured, envOrDefault] using congrArg Result.launches this
 
 example : entry .cliTest [] (.json sampleCfg) ["db"]
     = { launches := [⟨["/opt/w/witness", "a b", "", "'q'"], [("FOO", "1 2")], true⟩], raised := none } := by
